@@ -4,8 +4,11 @@ use crate::engine::{Outcome, Part, PartReport, Tier, WorkerCtx};
 use crate::proto;
 use crate::refhash;
 use bytes::BytesMut;
+#[cfg(feature = "lib")]
 use pgcat::pool::PoolSettings;
+#[cfg(feature = "lib")]
 use pgcat::query_router::QueryRouter;
+#[cfg(feature = "lib")]
 use pgcat::sharding::{Sharder, ShardingFunction};
 use proptest::prelude::*;
 use serde::{Deserialize, Serialize};
@@ -14,16 +17,26 @@ use std::sync::atomic::{AtomicU64, Ordering};
 use std::time::Instant;
 
 pub fn check(tier: Tier, seed: u64, replay: (Option<&str>, Option<&str>)) -> Vec<PartReport> {
-    let mut out = vec![];
-    if replay.0.is_none() {
-        out.push(sweep(tier));
+    #[cfg(feature = "lib")]
+    {
+        let mut out = vec![];
+        if replay.0.is_none() {
+            out.push(sweep(tier));
+        }
+        out.extend(crate::run_parts!(tier, seed, replay, [FuncPart, PathPart, super::c06w::WirePart]));
+        out
     }
-    out.extend(crate::run_parts!(tier, seed, replay, [FuncPart, PathPart, super::c06w::WirePart]));
-    out
+    #[cfg(not(feature = "lib"))]
+    {
+        let mut out = vec![crate::engine::lib_unavailable("C06", "sweep+func+paths")];
+        out.extend(crate::run_parts!(tier, seed, replay, [super::c06w::WirePart]));
+        out
+    }
 }
 
 // ------------------------------------------------------------------------------ hash sweep
 
+#[cfg(feature = "lib")]
 /// Differential sweep of the 32-bit word the hash consumes: Sharder (through its public API, with
 /// modulus usize::MAX so the full 64-bit row hash is observable) vs the PostgreSQL transcription.
 fn sweep(tier: Tier) -> PartReport {
@@ -130,8 +143,10 @@ fn n_strategy() -> BoxedStrategy<u64> {
     prop_oneof![3 => 1u64..=128, 1 => 1u64..(1 << 20), 1 => Just(1u64 << 31), 1 => Just(usize::MAX as u64)].boxed()
 }
 
+#[cfg(feature = "lib")]
 pub struct FuncPart;
 
+#[cfg(feature = "lib")]
 impl Part for FuncPart {
     type Case = FuncCase;
     fn prop(&self) -> &'static str {
@@ -214,6 +229,7 @@ fn literal_sql(shape: u8, k: i64) -> String {
     }
 }
 
+#[cfg(feature = "lib")]
 fn settings(shards: usize, sha1: bool) -> PoolSettings {
     PoolSettings {
         shards,
@@ -226,8 +242,10 @@ fn settings(shards: usize, sha1: bool) -> PoolSettings {
     }
 }
 
+#[cfg(feature = "lib")]
 pub struct PathPart;
 
+#[cfg(feature = "lib")]
 impl Part for PathPart {
     type Case = PathCase;
     fn prop(&self) -> &'static str {
@@ -311,6 +329,7 @@ impl Part for PathPart {
     }
 }
 
+#[cfg(feature = "lib")]
 /// Drive the real QueryRouter down one path; returns the shard it selected.
 fn route(c: &PathCase) -> Option<usize> {
     let mut qr = QueryRouter::new();
